@@ -958,3 +958,213 @@ Proof.
   rewrite A, B, D, Q, H. reflexivity.
 Qed.
 End Rename.
+
+(* ------------------------------------------------------------------------------------------------
+   10. the search model: whatever it yields is a list of `size` bonds of order 1 or 2 (loop invariant over the stack)
+   ------------------------------------------------------------------------------------------------ *)
+Definition ok_item (x : kitem) : Prop := let '(_, _, o, _) := x in o = 1 \/ o = 2.
+Definition ok_entry (x : kentry) : Prop := let '(_, _, o) := x in o = 1 \/ o = 2.
+Definition ok_form (size : Z) (y : list kentry) : Prop := Forall ok_entry y /\ Z.of_nat (List.length y) = size.
+Definition k_inv (size : Z) (s : kstate) : Prop :=
+  Forall (Forall ok_item) (k_stack s) /\ Forall ok_entry (k_path s) /\ Forall (ok_form size) (k_buffer s).
+
+Lemma Forall_rev' {A : Type} (P : A -> Prop) l : Forall P (rev l) -> Forall P l.
+Proof. intros H. rewrite <- (rev_involutive l). apply Forall_rev. exact H. Qed.
+
+Lemma pop_last_Forall {A : Type} (P : A -> Prop) l x r : pop_last l = Some (x, r) -> Forall P l -> P x /\ Forall P r.
+Proof.
+  unfold pop_last. intros E H. apply Forall_rev in H. destruct (rev l) as [|y t]; [discriminate|].
+  injection E as E1 E2. subst. inversion H; subst. split; [assumption | apply Forall_rev; assumption].
+Qed.
+
+Lemma firstn_Forall {A : Type} (P : A -> Prop) n l : Forall P l -> Forall P (firstn n l).
+Proof. revert l. induction n as [|n IH]; intros [|x l] H; simpl; auto. inversion H; subst. constructor; auto. Qed.
+
+Lemma cut_path_inv stack path p : cut_path stack path = Ok p -> Forall ok_entry path -> Forall ok_entry p.
+Proof.
+  unfold cut_path. intros E H. destruct stack as [|top rest]; [injection E as E; subst; exact H|].
+  destruct (pop_last top) as [[[[[a b] c] [k|]] r]|]; try discriminate; injection E as E; subst; auto using firstn_Forall.
+Qed.
+
+Lemma backtrack_inv rest path st p : backtrack rest path = Ok (st, p) ->
+  Forall (Forall ok_item) rest -> Forall ok_entry path -> Forall (Forall ok_item) st /\ Forall ok_entry p.
+Proof.
+  unfold backtrack. intros E R H. destruct (cut_path rest path) eqn:C; [|discriminate]. injection E as E1 E2. subst.
+  split; [exact R | eapply cut_path_inv; eauto].
+Qed.
+
+Lemma remove_kitem_inv x : forall l l', remove_kitem x l = Some l' -> Forall ok_item l -> Forall ok_item l'.
+Proof.
+  induction l as [|y r IH]; intros l' E H; simpl in E; [discriminate|]. inversion H; subst.
+  destruct (kitem_eqb x y); [injection E as E; subst; assumption|].
+  destruct (remove_kitem x r) eqn:R; [|discriminate]. injection E as E. subst. constructor; auto.
+Qed.
+
+Lemma do_closures_inv atom : forall cl top path top' path', do_closures atom cl top path = Ok (top', path') ->
+  Forall ok_item top -> Forall ok_entry path -> Forall ok_item top' /\ Forall ok_entry path'.
+Proof.
+  induction cl as [|c r IH]; intros top path top' path' E T P; simpl in E.
+  - injection E as E1 E2. subst. auto.
+  - destruct (remove_kitem (atom, c, 1, None) top) eqn:R; [|discriminate].
+    eapply IH; eauto using remove_kitem_inv.
+    apply Forall_app. split; [exact P|]. constructor; [left; reflexivity | constructor].
+Qed.
+
+Ltac disc := match goal with H : _ = Ok _ |- _ => first [discriminate H | cbv beta iota zeta in H; discriminate H | simpl in H; discriminate H] end.
+Ltac ok_lit := first [left; reflexivity | right; reflexivity].
+Ltac ok_items :=
+  repeat match goal with
+  | |- _ /\ _ => split
+  | |- Forall _ (_ ++ _) => apply Forall_app; split
+  | |- Forall _ (_ :: _) => constructor
+  | |- Forall _ [] => constructor
+  | |- ok_item _ => simpl; first [assumption | ok_lit]
+  | |- ok_entry _ => simpl; first [assumption | ok_lit]
+  | _ => assumption
+  end.
+
+Lemma grow_inv db pyr top rest path atom bond cl fs st p :
+  grow db pyr top rest path atom bond cl fs = Ok (st, p) ->
+  Forall ok_item top -> Forall (Forall ok_item) rest -> Forall ok_entry path ->
+  Forall (Forall ok_item) st /\ Forall ok_entry p.
+Proof.
+  unfold grow. intros E T R P.
+  destruct ((bond =? 2) || indb db atom).
+  - destruct (do_closures atom cl top path) as [[top1 path1]|] eqn:D; [|simpl in E; discriminate E].
+    injection E as E1 E2. subst. destruct (do_closures_inv _ _ _ _ _ _ D T P) as [T1 P1].
+    ok_items. clear. induction fs; simpl; constructor; auto. simpl. left. reflexivity.
+  - destruct fs as [|n1 [|n2 [|n3 fs]]].
+    + destruct (nonempty cl && negb (inpyr pyr atom)).
+      * eapply backtrack_inv; eauto.
+      * injection E as E1 E2. subst. ok_items.
+    + destruct (indb db n1).
+      * destruct (inpyr pyr atom); [injection E as E1 E2; subst; ok_items | eapply backtrack_inv; eauto].
+      * destruct (inpyr pyr atom); [injection E as E1 E2; subst; ok_items|].
+        destruct cl as [|c cl']; [injection E as E1 E2; subst; ok_items|].
+        destruct (remove_kitem _ _) eqn:Rm; [|simpl in E; discriminate E].
+        injection E as E1 E2. subst. split.
+        -- constructor; [|exact R]. eapply remove_kitem_inv; [exact Rm|]. ok_items.
+        -- ok_items.
+    + destruct (indb db n1).
+      * destruct (indb db n2).
+        -- destruct (inpyr pyr atom); [injection E as E1 E2; subst; ok_items | eapply backtrack_inv; eauto].
+        -- destruct (inpyr pyr atom); injection E as E1 E2; subst; ok_items.
+      * destruct (indb db n2).
+        -- destruct (inpyr pyr atom); injection E as E1 E2; subst; ok_items.
+        -- destruct (inpyr pyr atom); injection E as E1 E2; subst; ok_items.
+    + discriminate E.
+Qed.
+
+Lemma kstep_inv rings db pyr start size s s' ys :
+  kstep rings db pyr start size s = Ok (s', ys) -> k_inv size s -> k_inv size s' /\ Forall (ok_form size) ys.
+Proof.
+  unfold kstep, k_inv. intros E [S [P B]].
+  destruct (k_stack s) as [|top0 rest] eqn:KS.
+  - injection E as E1 E2. subst. rewrite KS. repeat split; auto.
+  - inversion S as [|? ? T0 R]; subst.
+    destruct (pop_last top0) as [[[[[atom prev] bond] c] top]|] eqn:PL; [|simpl in E; discriminate E].
+    destruct (pop_last_Forall ok_item _ _ _ PL T0) as [OB T]. simpl in OB.
+    assert (P' : Forall ok_entry (k_path s ++ [(atom, prev, bond)])) by (apply Forall_app; split; [exact P | constructor; [exact OB | constructor]]).
+    set (path := k_path s ++ [(atom, prev, bond)]) in *.
+    destruct (Z.of_nat (List.length path) =? size) eqn:SZ.
+    + apply Z.eqb_eq in SZ. assert (F : ok_form size path) by (split; assumption).
+      assert (BA : Forall (ok_form size) (k_buffer s ++ [path])) by (apply Forall_app; split; auto).
+      destruct (nonempty pyr && negb (k_bsize s =? 0));
+        [destruct (2 <=? countb (fun n => gsum n path =? 2) pyr); [destruct (Z.of_nat (List.length (k_buffer s)) =? k_bsize s)|]|];
+        cbv beta iota zeta in E; destruct (cut_path rest path) eqn:C; try (simpl in E; discriminate E);
+        injection E as E1 E2; subst; simpl; repeat split; auto; try (eapply cut_path_inv; eauto).
+    + destruct (negb (atom =? start)).
+      * destruct (scan_nbrs rings start atom prev path) as [[lp cl] fs]. cbv beta iota zeta in E.
+        assert (G : forall top' bond' st p, Forall ok_item top' ->
+                    grow db pyr top' rest path atom bond' cl fs = Ok (st, p) -> Forall (Forall ok_item) st /\ Forall ok_entry p).
+        { intros top' bond' st p T' Gr. eapply grow_inv; eauto. }
+        assert (BT : forall st p, backtrack rest path = Ok (st, p) -> Forall (Forall ok_item) st /\ Forall ok_entry p).
+        { intros st p Bt. eapply backtrack_inv; eauto. }
+        assert (TL : forall o, o = 1 \/ o = 2 -> Forall ok_item ((lp, atom, o, None) :: top)) by (intros o Ho; constructor; [exact Ho | exact T]).
+        repeat match type of E with
+        | (if ?c then _ else _) = _ => destruct c
+        end;
+        cbv beta iota zeta in E;
+        match type of E with
+        | context [grow db pyr ?t rest path atom ?bb cl fs] =>
+            destruct (grow db pyr t rest path atom bb cl fs) as [[st p]|] eqn:Gr; [|simpl in E; discriminate E];
+            injection E as E1 E2; subst; simpl;
+            first [assert (GG := G _ _ _ _ T Gr) | assert (GG := G _ _ _ _ (TL 1 (or_introl eq_refl)) Gr)
+                  | assert (GG := G _ _ _ _ (TL 2 (or_intror eq_refl)) Gr)]; destruct GG; repeat split; auto
+        | context [backtrack rest path] =>
+            destruct (backtrack rest path) as [[st p]|] eqn:Bt; [|simpl in E; discriminate E];
+            injection E as E1 E2; subst; simpl; destruct (BT _ _ eq_refl); repeat split; auto
+        end.
+      * injection E as E1 E2. subst. simpl. repeat split; auto.
+Qed.
+
+Lemma kloop_inv rings db pyr start size : forall fuel maxy s acc ys r c,
+  kloop rings db pyr start size fuel maxy s acc = Ok (ys, r, c) ->
+  k_inv size s -> Forall (ok_form size) acc -> Forall (ok_form size) ys.
+Proof.
+  induction fuel as [|f IH]; intros maxy s acc ys r c E I A; simpl in E.
+  - destruct (maxy <=? List.length acc)%nat; [injection E as E1 E2 E3; subst; apply firstn_Forall; exact A|].
+    destruct (k_stack s); [|simpl in E; discriminate E].
+    destruct (k_never s); injection E as E1 E2 E3; subst; auto.
+    apply firstn_Forall. apply Forall_app. split; [exact A | apply I].
+  - destruct (maxy <=? List.length acc)%nat; [injection E as E1 E2 E3; subst; apply firstn_Forall; exact A|].
+    destruct (k_stack s) eqn:KS.
+    + destruct (k_never s); injection E as E1 E2 E3; subst; auto.
+      apply firstn_Forall. apply Forall_app. split; [exact A | apply I].
+    + destruct (kstep rings db pyr start size s) as [[s' ys']|] eqn:K; [|simpl in E; discriminate E].
+      destruct (kstep_inv _ _ _ _ _ _ _ _ K I) as [I' Y].
+      eapply IH; eauto. apply Forall_app. split; assumption.
+Qed.
+
+(* every form the search model yields, for any component, sets, buffer size, cut and fuel: exactly `size` entries
+   (size = number of skeleton bonds), each of order 1 or 2 *)
+Theorem kekule_component_forms : forall rings db db_start pyr bs maxy fuel ys r c,
+  kekule_component rings db db_start pyr bs maxy fuel = Ok (ys, r, c) ->
+  Forall (ok_form (Z.of_nat (fold_right (fun nl s => (List.length (snd nl) + s)%nat) O rings) / 2)) ys.
+Proof.
+  intros rings db db_start pyr bs maxy fuel ys r c E. unfold kekule_component in E.
+  set (size := Z.of_nat (fold_right (fun nl s => (List.length (snd nl) + s)%nat) O rings) / 2) in *.
+  assert (RUN : forall db' start bond all_nbrs, (bond = 1 \/ bond = 2) ->
+     match al_get rings start with
+     | [] => Err StopIteration
+     | n0 :: more =>
+         kloop rings db' pyr start size fuel maxy
+           (mkK (if all_nbrs : bool then rev (map (fun nx => [((nx, start, bond, Some 0) : kitem)]) (n0 :: more))
+                 else [[((n0, start, bond, Some 0) : kitem)]]) [] [] bs true) []
+     end = Ok (ys, r, c) -> Forall (ok_form size) ys).
+  { intros db' start bond all_nbrs OB R. destruct (al_get rings start) as [|n0 more]; [discriminate|].
+    eapply kloop_inv; [exact R| |constructor]. unfold k_inv. cbn [k_stack k_path k_buffer]. repeat split; try constructor.
+    destruct all_nbrs; cbv beta iota.
+    - apply Forall_rev. clear - OB.
+      assert (H : forall l, Forall (Forall ok_item) (map (fun nx => [((nx, start, bond, Some 0) : kitem)]) l)).
+      { induction l; simpl; constructor; auto; repeat (constructor; try exact OB). }
+      apply (H (n0 :: more)).
+    - repeat (constructor; try exact OB). }
+  destruct db as [|d0 db].
+  - destruct (find_start rings pyr true) as [z|]; [exact (RUN [] z 1 true (or_introl eq_refl) E)|].
+    destruct (find_start rings pyr false) as [z|]; [exact (RUN [] z 1 true (or_introl eq_refl) E)|].
+    destruct rings as [|nl rr]; [discriminate E|]. exact (RUN [fst nl] (fst nl) 2 true (or_intror eq_refl) E).
+  - exact (RUN (d0 :: db) db_start 1 false (or_introl eq_refl) E).
+Qed.
+
+(* the search model at work: benzene has two forms, pyrrole (N-H in double_bonded) one, a five-ring of plain ring atoms none
+   (the generator raises InvalidAromaticRing); and the driver fed with the search model converts benzene *)
+Definition ring_adj (n : Z) : adjl :=
+  map (fun i => (i, [if i =? 1 then n else i - 1; if i =? n then 1 else i + 1])) (zrange 1 (n + 1)).
+Definition search_model (fuel : nat) (rings : adjl) (pyr db : list Z) : pyres (option (list (Z * Z * Z))) :=
+  match kekule_component rings db (hd 0 db) pyr 7 1 fuel with
+  | Ok (y :: _, _, _) => Ok (Some y)
+  | Ok ([], true, _) => Err OtherError
+  | Ok ([], false, _) => Ok None
+  | Err e => Err e
+  end.
+
+Theorem kekule_component_examples :
+  match kekule_component (ring_adj 6) [] 0 [] 7 10 1000 with Ok (ys, r, c) => (List.length ys =? 2)%nat && negb r && c | Err _ => false end = true /\
+  match kekule_component (ring_adj 5) [1] 1 [] 7 10 1000 with Ok (ys, r, c) => (List.length ys =? 1)%nat && negb r && c | Err _ => false end = true /\
+  match kekule_component (ring_adj 5) [] 0 [] 7 10 1000 with Ok (ys, r, c) => (List.length ys =? 0)%nat && r && c | Err _ => false end = true /\
+  match kekule_driver benzene_a [[1; 2; 3; 4; 5; 6]] (search_model 1000) (fun _ _ => Some 1) with
+  | Ok (g', r) => r && kekule_rel benzene_a g' && no_arom g'
+  | Err _ => false
+  end = true.
+Proof. vm_compute. repeat split; reflexivity. Qed.
